@@ -159,7 +159,10 @@ func mpJudge(c *Ctx, j *Job, res *proto.Result) {
 					// as-built: a native library of the same name makes the analysis treat the module as opaque although a Lua
 					// file matches too; the member then resolves to the local that holds the module
 					c.Rep.Deviation("Dev_NativeLibShadowsLuaModule", fmt.Sprintf("%s (tree0=%v, %s): definition on the string leads to %v, member mm.fx resolves to the local mm", label, d.tc.Tree0, strings.TrimSpace(d.main), defS), j.Raw)
-				} else if len(defM) == 1 && len(defS) == 1 && defM[0].File != defS[0].File && len(exp.Res) >= 2 && inSet(exp.Res, defM[0].File) && inSet(exp.Res, defS[0].File) {
+				} else if len(defM) == 1 && len(defS) == 1 && defM[0].File != defS[0].File && len(exp.Res) >= 2 && inSet(exp.Res, defM[0].File) && inSet(exp.Res, defS[0].File) &&
+					(ph > 0 || strings.Count(defM[0].File, "/") == strings.Count(defS[0].File, "/")) {
+					// (on the initial tree only candidates at the same directory depth are "equal": the as-built choice
+					// prefers the shallower file; after an event the analysis may still hold the choice it made before)
 					// as-built: several files match the module equally; the query and the analysis each pick one (map order)
 					c.Rep.Deviation("Dev_EqualScoreCandidates", fmt.Sprintf("%s (tree0=%v, %s): definition on the string leads to %s, the analysis loaded %s; both match", label, d.tc.Tree0, strings.TrimSpace(d.main), defS[0].File, defM[0].File), j.Raw)
 				} else if len(defM) != 1 || len(defS) != 1 || defM[0].File != defS[0].File {
@@ -183,13 +186,17 @@ func mpJudge(c *Ctx, j *Job, res *proto.Result) {
 }
 
 func checkC18(c *Ctx) {
-	c.Rep.Rule = "ModPath.tla enumerates directory trees (subsets of 7 candidate files incl. duplicates in sibling directories, init.lua packages and a native library), 6 module names, 3 spellings (dotted, slashed, dofile with suffix) and create/delete events; each case runs on a fresh real server: type 6 must be shown exactly when TLC's Resolves is empty (and no native library is tolerated), definition and hover on the string must lead to a member of Resolves (documented preference name.lua over name/init.lua), and the member imported through the module must resolve in that same file; checked again after every event"
+	c.Rep.Rule = "ModPath.tla enumerates directory trees (subsets of 10 candidate files, at most 3 present initially in the quick tier, incl. duplicates in sibling directories, init.lua packages and a native library), 6 module names, 3 spellings (dotted, slashed, dofile with suffix) and create/delete events; each case runs on a fresh real server: type 6 must be shown exactly when TLC's Resolves is empty (and no native library is tolerated), definition and hover on the string must lead to a member of Resolves (documented preference name.lua over name/init.lua), and the member imported through the module must resolve in that same file; checked again after every event"
 	c.Rep.Assumptions = []string{
 		"documented mapping with ReferMatchPathFlag=0: a module denotes every file whose path ends with m.lua or m/init.lua at a component boundary; which of several matches is chosen is UNSPECIFIED except name.lua before name/init.lua in the same directory",
 		"the loaded file is observed without a hook through go-to-definition on a member of the required module",
 	}
 	cfg := func(n int, invs string) string {
-		return fmt.Sprintf("CONSTANTS\n  MaxEvents = %d\nINIT Init\nNEXT Next\nINVARIANTS %s\nCHECK_DEADLOCK FALSE\n", n, invs)
+		mt := 3
+		if c.Thorough() {
+			mt = 10
+		}
+		return fmt.Sprintf("CONSTANTS\n  MaxEvents = %d\n  MaxTree = %d\nINIT Init\nNEXT Next\nINVARIANTS %s\nCHECK_DEADLOCK FALSE\n", n, mt, invs)
 	}
 	if c.Replay != "" {
 		raw, err := loadReplayCase(c.Replay)
